@@ -154,7 +154,8 @@ func (b *backend) delete(ctx context.Context, oldRevision uint64, key []byte) (n
 
 	newRevision, err = b.deal(oldRevision)
 	if err != nil {
-		return 0, KeyVal{}, err
+		// report the allocated revision so that it is resolved, otherwise the read revision stalls forever
+		return newRevision, KeyVal{}, err
 	}
 
 	old = KeyVal{Key: key, Revision: modRevision, Val: oldVal}
@@ -250,7 +251,8 @@ func (b *backend) update(ctx context.Context, oldRevision uint64, key []byte, va
 	var newRevision uint64
 	newRevision, err = b.deal(oldRevision)
 	if err != nil {
-		return 0, err
+		// report the allocated revision so that it is resolved, otherwise the read revision stalls forever
+		return newRevision, err
 	}
 
 	objectKey := b.coder.EncodeObjectKey(key, newRevision)
